@@ -181,8 +181,8 @@ func (k Keeper) FinishUnstakingValidator(ctx sdk.Ctx, validator types.Validator)
 	k.BeforeValidatorUnstaked(ctx, validator.GetAddress())
 	// delete the validator from the unstaking queue
 	k.deleteUnstakingValidator(ctx, validator)
-	// amount unstaked = stakedTokens
-	amount := sdk.NewInt(validator.StakedTokens.Int64())
+	// amount unstaked = stakedTokens (as recorded: a stake stated in a genesis file may exceed an int64)
+	amount := validator.StakedTokens
 	// send the tokens from staking module account to validator account
 	k.coinsFromStakedToUnstaked(ctx, validator)
 	// removed the staked tokens field from validator structure
